@@ -1,6 +1,7 @@
 package props
 
 import (
+	"go/token"
 	"go/types"
 	"sort"
 	"strings"
@@ -127,6 +128,11 @@ func (c *Ctx) widthSites(scope func(*ssa.Function) bool) []*widthSite {
 					case widthSanitisers[u.Callee]:
 						ws.okUses = append(ws.okUses, "sanitiser "+shortCallee(u.Callee))
 					case widthInsensitive[u.Callee]:
+						// a textual rendering is harmless in a message, not in a decision
+						if cmpAt := renderedAndCompared(u.Instr); cmpAt != nil {
+							ws.bad = append(ws.bad, "rendered by "+shortCallee(u.Callee)+" and compared at "+c.pos(cmpAt.Pos())+via+" (the minimal form has fewer digits when the value starts with 00)")
+							break
+						}
 						ws.okUses = append(ws.okUses, "width-insensitive "+shortCallee(u.Callee))
 					case u.Callee == "bytes.Equal":
 						ws.bad = append(ws.bad, "compared with bytes.Equal against a fixed-width value at "+at+via)
@@ -267,4 +273,39 @@ func (c *Ctx) checkPadHelper(rule string, fn *ssa.Function) {
 	} else {
 		c.R.Hold(rule, "sanitiser:"+name, c.pos(fn.Pos()), "left-pads to a fixed width")
 	}
+}
+
+// renderedAndCompared: the result of a rendering call (hex dump, Sprintf) is an operand of == / != or of a
+// string/bytes comparison.
+func renderedAndCompared(in ssa.Instruction) ssa.Instruction {
+	call, ok := in.(*ssa.Call)
+	if !ok || call.Referrers() == nil {
+		return nil
+	}
+	var found ssa.Instruction
+	seen := map[ssa.Value]bool{}
+	var walk func(v ssa.Value, depth int)
+	walk = func(v ssa.Value, depth int) {
+		if seen[v] || depth > 4 || v.Referrers() == nil || found != nil {
+			return
+		}
+		seen[v] = true
+		for _, rf := range *v.Referrers() {
+			switch x := rf.(type) {
+			case *ssa.BinOp:
+				if x.Op == token.EQL || x.Op == token.NEQ {
+					found = x
+				}
+			case *ssa.Phi:
+				walk(x, depth+1)
+			case *ssa.Call:
+				switch an.CalleeName(x.Common()) {
+				case "strings.EqualFold", "strings.Compare", "bytes.Equal", "strings.HasPrefix", "strings.HasSuffix":
+					found = x
+				}
+			}
+		}
+	}
+	walk(call, 0)
+	return found
 }
